@@ -90,7 +90,7 @@ def main():
                 "engine": "binharness" if pid == "C19" else "mc-harness",
                 "level_claimed": {"category": level, "text": text + (" Also: every reader call sequence of <= 4 (thorough 5) operations on two handles (DESIGN.md 12.19), judged for this property's operations." if pid in SEQREAD else "") + (" Cases are built after unhappy histories on the same thread (failed, abandoned and rejected builds, abandoned traversals; DESIGN.md 12.19)." if pid != "C19" else ""), "design_ref": ref},
                 "level_note": note,
-                "technique": tech + ("; bounded exhaustive exploration of reader call sequences (<= 4 calls, thorough 5, over a 38-operation alphabet on two handles) against a reference model" if pid in SEQREAD else "") + ("; TLC explicit-state model checking of a TLA+ protocol model with outcome conformance against the explored implementation" if pid == "C19" else ""),
+                "technique": tech + ("; bounded exhaustive exploration of reader call sequences (<= 4 calls, thorough 5, over a 46-operation alphabet on two handles) against a reference model" if pid in SEQREAD else "") + ("; TLC explicit-state model checking of a TLA+ protocol model with outcome conformance against the explored implementation" if pid == "C19" else ""),
             })
         else:
             na.append({"property_id": pid, "reason": PENDING.get(pid, "check under construction in this session; not claimed until it is built and shown green on the tree")})
